@@ -40,6 +40,10 @@ extern void    user_bcopy      (char *, char *, int);
 #define StackFull(x)         ( x + Glu->stack.used >= Glu->stack.size )
 #define NotDoubleAlign(addr) ( (intptr_t)addr & 7 )
 #define DoubleAlign(addr)    ( ((intptr_t)addr + 7) & ~7L )	
+/* the index arrays that follow a value array in work[] must stay on an int_t boundary */
+#define AlignGrowth(new_len, prev_len, lword) \
+    while ( (size_t)(lword) < sizeof(int_t) && \
+	    (((new_len) - (prev_len)) * (lword)) % sizeof(int_t) ) ++(new_len)
 #define TempSpace(m, w)      ( (2*w + 4 + NO_MARKER) * m * sizeof(int) + \
 			      (w + 1) * m * sizeof(double) )
 #define Reduce(alpha)        ((alpha + 1) / 2)  /* i.e. (alpha-1)/2 + 1 */
@@ -599,7 +603,7 @@ void
 	
 	    new_mem = duser_malloc(new_len * lword, HEAD, Glu);
 	    if ( NotDoubleAlign(new_mem) &&
-		(type == LUSUP || type == UCOL) ) {
+		(type == LUSUP || type == UCOL || sizeof(int_t) > sizeof(int)) ) {
 		old_mem = new_mem;
 		new_mem = (void *)DoubleAlign(new_mem);
 		extra = (char*)new_mem - (char*)old_mem;
@@ -615,6 +619,7 @@ void
 	} else { /* CASE: num_expansions != 0 */
 	
 	    tries = 0;
+	    if ( !keep_prev ) AlignGrowth(new_len, *prev_len, lword);
 	    extra = (new_len - *prev_len) * lword;
 	    if ( keep_prev ) {
 		if ( StackFull(extra) ) return (NULL);
@@ -624,6 +629,7 @@ void
 		    alpha = Reduce(alpha);
 		    new_len = alpha * *prev_len;
 		    if ( new_len <= *prev_len ) new_len = *prev_len + 1;
+		    AlignGrowth(new_len, *prev_len, lword);
 		    extra = (new_len - *prev_len) * lword;	    
 		}
 	    }
